@@ -358,6 +358,18 @@ pub mod sstable {
 		Ok(Tbl { table: Box::leak(Box::new(table)), bytes, cfg })
 	}
 
+	/// Opens a table file on disk with the real reader, as the store does (`std::fs::File` behind `vfs::File`).
+	pub fn open_path(path: &std::path::Path, cfg: Cfg) -> std::result::Result<Tbl, String> {
+		let opts = options(cfg);
+		let id = NEXT_ID.fetch_add(1, std::sync::atomic::Ordering::Relaxed);
+		let f = std::fs::File::open(path).map_err(|e| e.to_string())?;
+		let size = f.metadata().map_err(|e| e.to_string())?.len();
+		let bytes = Arc::new(std::fs::read(path).map_err(|e| e.to_string())?);
+		let file: Arc<dyn crate::vfs::File> = Arc::new(f);
+		let table = Table::new(id, opts, file, size).map_err(|e| e.to_string())?;
+		Ok(Tbl { table: Box::leak(Box::new(table)), bytes, cfg })
+	}
+
 	/// one data block as the index sees it: separator (user key, seq), entries (user key, seq), and the
 	/// entry indices at which the block's restart points sit
 	pub type BlockDump = ((Vec<u8>, u64), Vec<(Vec<u8>, u64)>, Vec<usize>);
